@@ -85,5 +85,8 @@ func SpecReplyTruth(reply interface{}) bool { panic("abstract spec function") }
 //@   ensures error_stops_before_writing: probed == 1 && rr.KeyExists == "error" ==> err != nil && expanded == old(expanded) && nDel == old(nDel) && nPexpire == old(nPexpire)
 //@   ensures replace_deletes_first: probed == 1 && rr.KeyExists == "replace" && err == nil ==> nDel == old(nDel) + 1 && expanded == old(expanded) + 1
 //@   ensures absent_key_is_written: probed == 0 && err == nil ==> expanded == old(expanded) + 1 && nDel == old(nDel)
+//@   assert at call restoreBigRdbEntry: native_fallback_after_a_refused_replace_deletes_the_old_value_first: probed == 0 - 1 && reqs >= old(reqs) + 2 ==> nDel == old(nDel) + 1
+//@   ensures native_fallback_applies_the_expiry: err == nil && probed == 0 - 1 && expanded == old(expanded) + 1 && old(e.ExpireAt) != 0 ==> nPexpire == old(nPexpire) + 1
 //@   loop 1:
 //@     invariant restore_path: fresh(params) && probed == 0 - 1 && expanded == old(expanded) && nDel == old(nDel) && nPexpire == old(nPexpire)
+//@     invariant replace_is_remembered: reqs >= old(reqs) && (replace <==> reqs > old(reqs))
